@@ -1,15 +1,41 @@
 package main
 
+// C06: handshakes agree on parameters and keys and then carry data intact.
+//
+//   hs <mode> <client> <csuites> <ssuites> <prefer> <auth> <ccert> <certsrc> <tickets> <scert> <payload>
+//     mode    gm | auto | tls | std        (std: the server is the Go standard library's crypto/tls)
+//     client  gm | tls10 | tls11 | tls12 | std10 | std11 | std12   (stdNN: crypto/tls client)
+//     suites  hex ids joined by '+', '-' = default
+//     prefer  PreferServerCipherSuites 0|1;  auth ClientAuth 0..4;  ccert 0 none | 1 trusted | 2 other CA
+//     certsrc s (Config.Certificates) | c (GetCertificate / GetKECertificate callbacks)
+//     tickets 0|1;  scert r (RSA) | e (ECDSA) certificate of the TLS server
+//     payload <seedhex>:<bytes c->s>:<bytes s->c>:<max fragment>
+//   result: "ok <vers> <suite> <clientcerts>" or "fail" (the Lean negotiation model prints the same), or ORACLE-FAIL:…
+//
+//   gmdecode <suite> <master> <crandom> <srandom> <transcript> <cfin> <sfin> <c2s records> <s2c records> <c2s plaintext> <s2c plaintext>
+//     generated from a real GMSSL connection (wire capture + key log): the Lean side derives the keys with its own
+//     SM3 PRF, checks both Finished messages and decrypts the application records; both sides print "ok".
+
 import (
 	"bytes"
+	"crypto/tls"
 	"fmt"
 	"io"
+	"os"
+	"runtime/debug"
+	"strconv"
+	"strings"
+	"sync"
+	"time"
 
 	"github.com/tjfoc/gmsm/gmtls"
 )
 
 func init() {
 	evals["tlssmoke"] = evalTLSSmoke
+	evals["hs"] = evalHS
+	evals["gmdecode"] = func(args []string) string { return "ok" }
+	gens["C06"] = genC06
 }
 
 // echoApp sends payload client->server and back and compares
@@ -46,4 +72,658 @@ func evalTLSSmoke(args []string) string {
 	m, _, _ := pkis()
 	res := runPair(gmClientCfg(m), gmServerCfg(m), pairOpts{app: echoApp(bytes.Repeat([]byte("x"), 40000)), log: true})
 	return fmt.Sprintf("c=%v/%s s=%v/%s suite=%x vers=%x app=%s recs=%d", res.c.done, errStr(res.c.err), res.s.done, errStr(res.s.err), res.c.state.CipherSuite, res.c.state.Version, res.app, len(res.log.recs))
+}
+
+// duplex: both directions at once, each side writing its payload in fragments of pseudo-random sizes
+type rw interface {
+	io.Reader
+	io.Writer
+}
+
+func duplex(c, s rw, seed uint64, nc, ns, maxFrag int) string {
+	r := newRng(seed)
+	pc, ps := r.bytes(nc), r.bytes(ns)
+	var fc, fs []int
+	for rem := nc; rem > 0; {
+		k := 1 + r.intn(maxFrag)
+		if r.chance(1, 10) {
+			k = 0 // a zero-length write
+		}
+		if k > rem {
+			k = rem
+		}
+		fc = append(fc, k)
+		rem -= k
+	}
+	for rem := ns; rem > 0; {
+		k := 1 + r.intn(maxFrag)
+		if k > rem {
+			k = rem
+		}
+		fs = append(fs, k)
+		rem -= k
+	}
+	var wg sync.WaitGroup
+	errs := make([]string, 4)
+	type closeWriter interface{ CloseWrite() error }
+	write := func(i int, w io.Writer, p []byte, frags []int) {
+		defer wg.Done()
+		for _, k := range frags {
+			if _, err := w.Write(p[:k]); err != nil {
+				errs[i] = "write:" + err.Error()
+				return
+			}
+			p = p[k:]
+		}
+		// end of this direction: close_notify; the reader must still receive every byte written before it
+		if cw, ok := w.(closeWriter); ok {
+			if err := cw.CloseWrite(); err != nil {
+				errs[i] = "closewrite:" + err.Error()
+			}
+		}
+	}
+	read := func(i int, rd io.Reader, want []byte, sizes []int) {
+		defer wg.Done()
+		var got []byte
+		for k := 0; ; k++ {
+			buf := make([]byte, sizes[k%len(sizes)])
+			n, err := rd.Read(buf)
+			got = append(got, buf[:n]...)
+			if err == io.EOF {
+				break
+			}
+			if err != nil {
+				errs[i] = "read:" + err.Error()
+				return
+			}
+			if len(got) > len(want) {
+				break
+			}
+		}
+		if !bytes.Equal(got, want) {
+			errs[i] = fmt.Sprintf("bytes-differ:got-%d-of-%d", len(got), len(want))
+		}
+	}
+	sz := func() []int {
+		var out []int
+		for k := 0; k < 7; k++ {
+			out = append(out, r.pick([]int{1, 2, 5, 100, 1000, 16384, 40000}))
+		}
+		return out
+	}
+	s1, s2 := sz(), sz()
+	wg.Add(4)
+	go write(0, c, pc, fc)
+	go write(1, s, ps, fs)
+	go read(2, s, pc, s1)
+	go read(3, c, ps, s2)
+	wg.Wait()
+	for _, e := range errs {
+		if e != "" {
+			return strings.ReplaceAll(e, " ", "_")
+		}
+	}
+	return "ok"
+}
+
+type hsParams struct {
+	mode, client     string
+	csuites, ssuites []uint16
+	prefer           bool
+	auth, ccert      int
+	certsrc          string
+	tickets          bool
+	scert            string
+	seed             uint64
+	nc, ns, maxFrag  int
+}
+
+func parseHS(args []string) (hsParams, bool) {
+	var p hsParams
+	if len(args) != 11 {
+		return p, false
+	}
+	p.mode, p.client = args[0], args[1]
+	var ok1, ok2 bool
+	p.csuites, ok1 = parseSuites(args[2])
+	p.ssuites, ok2 = parseSuites(args[3])
+	p.prefer = args[4] == "1"
+	p.auth, _ = strconv.Atoi(args[5])
+	p.ccert, _ = strconv.Atoi(args[6])
+	p.certsrc = args[7]
+	p.tickets = args[8] == "1"
+	p.scert = args[9]
+	f := strings.Split(args[10], ":")
+	if !ok1 || !ok2 || len(f) != 4 {
+		return p, false
+	}
+	p.seed, _ = strconv.ParseUint(f[0], 16, 64)
+	p.nc, _ = strconv.Atoi(f[1])
+	p.ns, _ = strconv.Atoi(f[2])
+	p.maxFrag, _ = strconv.Atoi(f[3])
+	if p.maxFrag < 1 {
+		p.maxFrag = 1
+	}
+	return p, true
+}
+
+func tlsVersionOf(client string) uint16 {
+	switch client[len(client)-2:] {
+	case "10":
+		return 0x0301
+	case "11":
+		return 0x0302
+	}
+	return 0x0303
+}
+
+// the gmtls server configuration for a mode
+func buildServer(p hsParams) *gmtls.Config {
+	m, _, std := pkis()
+	tlsCert := std.rsaServer
+	if p.scert == "e" {
+		tlsCert = std.ecServer
+	}
+	var cfg *gmtls.Config
+	switch p.mode {
+	case "gm":
+		cfg = &gmtls.Config{GMSupport: gmtls.NewGMSupport()}
+		if p.certsrc == "c" {
+			cfg.GetCertificate = func(*gmtls.ClientHelloInfo) (*gmtls.Certificate, error) { return &m.sign, nil }
+			cfg.GetKECertificate = func(*gmtls.ClientHelloInfo) (*gmtls.Certificate, error) { return &m.enc, nil }
+		} else {
+			cfg.Certificates = []gmtls.Certificate{m.sign, m.enc}
+		}
+	case "auto":
+		sup := gmtls.NewGMSupport()
+		sup.EnableMixMode()
+		cfg = &gmtls.Config{GMSupport: sup}
+		// auto-switch needs the version-dependent choice of the signing certificate, which only the callback can make
+		cfg.GetCertificate = func(info *gmtls.ClientHelloInfo) (*gmtls.Certificate, error) {
+			for _, v := range info.SupportedVersions {
+				if v == gmtls.VersionGMSSL {
+					return &m.sign, nil
+				}
+			}
+			return &tlsCert, nil
+		}
+		if p.certsrc == "c" {
+			cfg.GetKECertificate = func(*gmtls.ClientHelloInfo) (*gmtls.Certificate, error) { return &m.enc, nil }
+		} else {
+			cfg.Certificates = []gmtls.Certificate{m.sign, m.enc} // static pair; GetCertificate still decides for named clients
+		}
+	default: // tls
+		cfg = &gmtls.Config{}
+		if p.certsrc == "c" {
+			cfg.GetCertificate = func(*gmtls.ClientHelloInfo) (*gmtls.Certificate, error) { return &tlsCert, nil }
+		} else {
+			cfg.Certificates = []gmtls.Certificate{tlsCert}
+		}
+	}
+	cfg.Time = tlsNow
+	cfg.CipherSuites = p.ssuites
+	cfg.PreferServerCipherSuites = p.prefer
+	cfg.ClientAuth = gmtls.ClientAuthType(p.auth)
+	cfg.SessionTicketsDisabled = !p.tickets
+	return cfg
+}
+
+func evalHS(args []string) string {
+	p, ok := parseHS(args)
+	if !ok {
+		return "bad-op"
+	}
+	sh := &hsShared{cache: gmtls.NewLRUClientSessionCache(4)}
+	if p.mode != "std" {
+		sh.srv = buildServer(p)
+	}
+	first := hsOnce(p, sh)
+	if !p.tickets || !strings.HasPrefix(first, "ok") {
+		return first
+	}
+	// session tickets on: a second connection with the same client cache and server configuration (resumed when
+	// the server lists the suite explicitly, a full handshake otherwise) must agree on the same parameters
+	p.seed++
+	second := hsOnce(p, sh)
+	if strings.HasPrefix(second, "ORACLE-FAIL") {
+		return second + ":second-connection"
+	}
+	if second != first {
+		return "ORACLE-FAIL:second-connection-differs:" + strings.ReplaceAll(second, " ", "_")
+	}
+	return first
+}
+
+type hsShared struct {
+	cache gmtls.ClientSessionCache
+	srv   *gmtls.Config
+}
+
+func hsOnce(p hsParams, sh *hsShared) string {
+	m, other, std := pkis()
+	gmClient := p.client == "gm"
+	stdClient := strings.HasPrefix(p.client, "std")
+	stdServer := p.mode == "std"
+	tlsCert := std.rsaServer
+	if p.scert == "e" {
+		tlsCert = std.ecServer
+	}
+	cEnd, sEnd := bufPipe()
+	defer cEnd.Close()
+	defer sEnd.Close()
+	type side struct {
+		err      error
+		vers     uint16
+		suite    uint16
+		ekm      []byte
+		peers    [][]byte
+		panicked bool
+	}
+	var cs, ss side
+	var cconn, sconn rw
+	var wg sync.WaitGroup
+	wg.Add(2)
+	// ---- client
+	go func() {
+		defer wg.Done()
+		defer func() {
+			if e := recover(); e != nil {
+				cs.panicked = true
+				if os.Getenv("VERIF_DEBUG") != "" {
+					fmt.Fprintf(os.Stderr, "client panic: %v\n%s\n", e, debug.Stack())
+				}
+			}
+		}()
+		if stdClient {
+			v := tlsVersionOf(p.client)
+			cfg := &tls.Config{RootCAs: std.stdPool, ServerName: "std.test", MinVersion: v, MaxVersion: v, CipherSuites: p.csuites, Time: tlsNow}
+			if p.ccert == 1 {
+				cfg.Certificates = []tls.Certificate{{Certificate: std.rsaClient.Certificate, PrivateKey: std.rsaClient.PrivateKey}}
+			} else if p.ccert == 2 {
+				oc := c16OtherStdPKI().rsaClient
+				cfg.GetClientCertificate = func(*tls.CertificateRequestInfo) (*tls.Certificate, error) {
+					return &tls.Certificate{Certificate: oc.Certificate, PrivateKey: oc.PrivateKey}, nil
+				}
+			}
+			c := tls.Client(cEnd, cfg)
+			cconn = c
+			cs.err = c.Handshake()
+			if cs.err == nil {
+				st := c.ConnectionState()
+				cs.vers, cs.suite = st.Version, st.CipherSuite
+				cs.ekm, _ = st.ExportKeyingMaterial("verif label", []byte("ctx"), 32)
+				for _, pc := range st.PeerCertificates {
+					cs.peers = append(cs.peers, pc.Raw)
+				}
+			}
+			return
+		}
+		var cfg *gmtls.Config
+		if gmClient {
+			cfg = &gmtls.Config{GMSupport: gmtls.NewGMSupport(), RootCAs: m.pool, ServerName: "gm.test", Time: tlsNow}
+			if p.ccert == 1 {
+				cfg.Certificates = []gmtls.Certificate{m.client}
+			} else if p.ccert == 2 {
+				cfg.GetClientCertificate = func(*gmtls.CertificateRequestInfo) (*gmtls.Certificate, error) { return &other.client, nil }
+			}
+		} else {
+			v := tlsVersionOf(p.client)
+			cfg = &gmtls.Config{RootCAs: std.gmPool, ServerName: "std.test", MaxVersion: v, Time: tlsNow}
+			if p.ccert == 1 {
+				cfg.Certificates = []gmtls.Certificate{std.rsaClient}
+			} else if p.ccert == 2 {
+				oc := c16OtherStdPKI().rsaClient
+				cfg.GetClientCertificate = func(*gmtls.CertificateRequestInfo) (*gmtls.Certificate, error) { return &oc, nil }
+			}
+		}
+		cfg.CipherSuites = p.csuites
+		if p.tickets {
+			cfg.ClientSessionCache = sh.cache
+		}
+		c := gmtls.Client(cEnd, cfg)
+		cconn = c
+		cs.err = c.Handshake()
+		if cs.err == nil {
+			st := c.ConnectionState()
+			cs.vers, cs.suite = st.Version, st.CipherSuite
+			cs.ekm, _ = st.ExportKeyingMaterial("verif label", []byte("ctx"), 32)
+			for _, pc := range st.PeerCertificates {
+				cs.peers = append(cs.peers, pc.Raw)
+			}
+		}
+	}()
+	// ---- server
+	go func() {
+		defer wg.Done()
+		defer func() {
+			if e := recover(); e != nil {
+				ss.panicked = true
+				if os.Getenv("VERIF_DEBUG") != "" {
+					fmt.Fprintf(os.Stderr, "server panic: %v\n%s\n", e, debug.Stack())
+				}
+			}
+		}()
+		if stdServer {
+			cfg := &tls.Config{Certificates: []tls.Certificate{{Certificate: tlsCert.Certificate, PrivateKey: tlsCert.PrivateKey}}, CipherSuites: p.ssuites,
+				MinVersion: 0x0301, MaxVersion: 0x0303, ClientAuth: tls.ClientAuthType(p.auth), ClientCAs: std.stdPool, Time: tlsNow, SessionTicketsDisabled: !p.tickets}
+			s := tls.Server(sEnd, cfg)
+			sconn = s
+			ss.err = s.Handshake()
+			if ss.err == nil {
+				st := s.ConnectionState()
+				ss.vers, ss.suite = st.Version, st.CipherSuite
+				ss.ekm, _ = st.ExportKeyingMaterial("verif label", []byte("ctx"), 32)
+				for _, pc := range st.PeerCertificates {
+					ss.peers = append(ss.peers, pc.Raw)
+				}
+			}
+			return
+		}
+		cfg := sh.srv
+		if p.mode == "gm" || (p.mode == "auto" && gmClient) {
+			cfg.ClientCAs = m.pool
+		} else {
+			cfg.ClientCAs = std.gmPool
+		}
+		s := gmtls.Server(sEnd, cfg)
+		sconn = s
+		ss.err = s.Handshake()
+		if ss.err == nil {
+			st := s.ConnectionState()
+			ss.vers, ss.suite = st.Version, st.CipherSuite
+			ss.ekm, _ = st.ExportKeyingMaterial("verif label", []byte("ctx"), 32)
+			for _, pc := range st.PeerCertificates {
+				ss.peers = append(ss.peers, pc.Raw)
+			}
+		}
+	}()
+	// one side failing must make the other fail too once its stream ends
+	done := make(chan struct{})
+	go func() { wg.Wait(); close(done) }()
+	select {
+	case <-done:
+	case <-time.After(3 * time.Second):
+		// a failed side leaves its peer waiting: end the streams and require both to return
+		cEnd.Close()
+		sEnd.Close()
+		select {
+		case <-done:
+		case <-time.After(5 * time.Second):
+			return "ORACLE-FAIL:hang"
+		}
+	}
+	if cs.panicked || ss.panicked {
+		return "ORACLE-FAIL:panic"
+	}
+	if (cs.err == nil) != (ss.err == nil) {
+		// the client may complete a split second before the server rejects its last flight (client certificate,
+		// Finished); the rejection then surfaces on the client's first read
+		if cs.err == nil && ss.err != nil && !stdClient {
+			buf := make([]byte, 1)
+			cEnd.SetReadDeadline(time.Now().Add(2 * time.Second))
+			if _, err := cconn.Read(buf); err != nil {
+				return "fail"
+			}
+		}
+		return "ORACLE-FAIL:one-side-completes:c=" + strings.ReplaceAll(errStr(cs.err), " ", "_") + ":s=" + strings.ReplaceAll(errStr(ss.err), " ", "_")
+	}
+	if cs.err != nil {
+		return "fail"
+	}
+	if cs.vers != ss.vers || cs.suite != ss.suite {
+		return "ORACLE-FAIL:ends-disagree"
+	}
+	if len(cs.ekm) == 0 || !bytes.Equal(cs.ekm, ss.ekm) {
+		return "ORACLE-FAIL:keying-material-differs"
+	}
+	// the client must have seen exactly the certificates the server is configured with
+	var want [][]byte
+	if cs.vers == gmtls.VersionGMSSL {
+		want = [][]byte{m.sign.Certificate[0], m.enc.Certificate[0]}
+	} else {
+		want = [][]byte{tlsCert.Certificate[0]}
+	}
+	if len(cs.peers) != len(want) {
+		return "ORACLE-FAIL:server-certificates-differ"
+	}
+	for i := range want {
+		if !bytes.Equal(cs.peers[i], want[i]) {
+			return "ORACLE-FAIL:server-certificates-differ"
+		}
+	}
+	if r := duplex(cconn, sconn, p.seed, p.nc, p.ns, p.maxFrag); r != "ok" {
+		return "ORACLE-FAIL:data:" + r
+	}
+	return fmt.Sprintf("ok %04x %04x %d", cs.vers, cs.suite, len(ss.peers))
+}
+
+var (
+	otherStdOnce sync.Once
+	otherStd     *stdPKI
+)
+
+func c16OtherStdPKI() *stdPKI {
+	otherStdOnce.Do(func() { otherStd = mkStdPKI() })
+	return otherStd
+}
+
+func suiteList(ids []int) string {
+	if len(ids) == 0 {
+		return "-"
+	}
+	var s []string
+	for _, id := range ids {
+		s = append(s, strconv.FormatInt(int64(id), 16))
+	}
+	return strings.Join(s, "+")
+}
+
+func genC06(r *rng, tier string, emit func(string)) {
+	gmS := [][]int{nil, {0xe013}, {0xe053}, {0xe013, 0xe053}, {0xe053, 0xe013}, {0xe011, 0xe013}, {0xe011}, {0xe051, 0xe053, 0xe013}, {0xe011, 0xe051}}
+	tlsS := [][]int{nil, {0x2f}, {0x35}, {0x9c}, {0xc013}, {0xc02f}, {0xcca8}, {0xc02b}, {0x9c, 0x2f}, {0x2f, 0xc02f}, {0xc02f, 0x9c, 0x2f}, {0xc02b, 0xc02f}, {0x0a}, {0xc030, 0x9d}}
+	pay := func() string {
+		nc := r.pick([]int{0, 1, 100, 16384, 16385, 40000})
+		ns := r.pick([]int{0, 1, 100, 16384, 16385, 40000})
+		if tier == "thorough" && r.chance(1, 6) {
+			nc, ns = 200*1024, 150*1024
+		}
+		return fmt.Sprintf("%x:%d:%d:%d", r.u64(), nc, ns, r.pick([]int{1, 7, 1000, 16384, 20000, 70000}))
+	}
+	b := func(x bool) int {
+		if x {
+			return 1
+		}
+		return 0
+	}
+	// systematic: mode x client kind x policy x client certificate, default suites
+	for _, mode := range []string{"gm", "auto", "tls"} {
+		for _, client := range []string{"gm", "tls12", "tls10"} {
+			for auth := 0; auth <= 4; auth++ {
+				for cc := 0; cc <= 2; cc++ {
+					for _, src := range []string{"s", "c"} {
+						if src == "c" && (auth+cc)%3 != 0 && tier != "thorough" {
+							continue
+						}
+						emit(fmt.Sprintf("hs %s %s - - 0 %d %d %s %d r %s", mode, client, auth, cc, src, (auth+cc)%2, pay()))
+					}
+				}
+			}
+		}
+	}
+	// suite lists and preference
+	n := 120
+	if tier == "thorough" {
+		n = 1500
+	}
+	for i := 0; i < n; i++ {
+		mode := []string{"gm", "auto", "tls", "auto"}[r.intn(4)]
+		client := []string{"gm", "gm", "tls12", "tls11", "tls10"}[r.intn(5)]
+		var cl, sl []int
+		if client == "gm" {
+			cl = gmS[r.intn(len(gmS))]
+		} else {
+			cl = tlsS[r.intn(len(tlsS))]
+		}
+		if mode == "gm" || (mode == "auto" && client == "gm") {
+			sl = gmS[r.intn(len(gmS))]
+		} else {
+			sl = tlsS[r.intn(len(tlsS))]
+		}
+		if r.chance(1, 10) { // mismatching families
+			sl = tlsS[r.intn(len(tlsS))]
+		}
+		scert := "r"
+		if r.chance(1, 4) {
+			scert = "e"
+		}
+		if mode == "auto" {
+			scert = []string{"r", "e"}[r.intn(2)]
+		}
+		auth, cc := 0, 0
+		if r.chance(1, 3) {
+			auth, cc = r.intn(5), r.intn(3)
+		}
+		emit(fmt.Sprintf("hs %s %s %s %s %d %d %d %s %d %s %s", mode, client, suiteList(cl), suiteList(sl), b(r.chance(1, 2)), auth, cc,
+			[]string{"s", "c"}[r.intn(2)], r.intn(2), scert, pay()))
+	}
+	// wire captures of real GMSSL connections for the independent decoder
+	ncap := 6
+	if tier == "thorough" {
+		ncap = 40
+	}
+	for i := 0; i < ncap; i++ {
+		suite := []uint16{gmtls.GMTLS_ECC_SM4_CBC_SM3, gmtls.GMTLS_ECC_SM4_GCM_SM3}[i%2]
+		auth := []int{0, 4, 1}[i%3]
+		nc := r.pick([]int{0, 1, 15, 16, 17, 300, 2000})
+		ns := r.pick([]int{0, 1, 31, 32, 33, 500, 1500})
+		if line, ok := captureGM(r, suite, auth, nc, ns); ok {
+			emit(line)
+		}
+	}
+	// interoperability with the Go standard library: one suite at a time (its preference order is its own)
+	for _, v := range []string{"10", "11", "12"} {
+		for _, su := range []int{0x2f, 0x35, 0xc013, 0xc014, 0x9c, 0xc02f, 0xc030, 0xcca8, 0xc02b} {
+			tls12only := su == 0x9c || su == 0xc02f || su == 0xc030 || su == 0xcca8 || su == 0xc02b
+			if tls12only && v != "12" {
+				continue
+			}
+			scert := "r"
+			if su == 0xc02b {
+				scert = "e"
+			}
+			for _, auth := range []int{0, 4} {
+				emit(fmt.Sprintf("hs tls std%s %x %x 0 %d %d s 1 %s %s", v, su, su, auth, b(auth == 4), scert, pay()))
+				emit(fmt.Sprintf("hs auto std%s %x %x 0 %d %d c 0 %s %s", v, su, su, auth, b(auth == 4), scert, pay()))
+				emit(fmt.Sprintf("hs std tls%s %x %x 0 %d %d s 1 %s %s", v, su, su, auth, b(auth == 4), scert, pay()))
+			}
+		}
+	}
+}
+
+type keyLog struct {
+	mu  sync.Mutex
+	buf bytes.Buffer
+}
+
+func (k *keyLog) Write(p []byte) (int, error) {
+	k.mu.Lock()
+	defer k.mu.Unlock()
+	return k.buf.Write(p)
+}
+
+// captureGM runs one real GMSSL connection with a wire log and a key log and renders it as a gmdecode op
+func captureGM(r *rng, suite uint16, auth, nc, ns int) (string, bool) {
+	m, _, _ := pkis()
+	kl := &keyLog{}
+	ccfg := gmClientCfg(m)
+	ccfg.CipherSuites = []uint16{suite}
+	ccfg.KeyLogWriter = kl
+	if auth > 0 {
+		ccfg.Certificates = []gmtls.Certificate{m.client}
+	}
+	scfg := gmServerCfg(m)
+	scfg.SessionTicketsDisabled = true
+	scfg.ClientAuth = gmtls.ClientAuthType(auth)
+	scfg.ClientCAs = m.pool
+	pc, ps := r.bytes(nc), r.bytes(ns)
+	frag := 1 + r.intn(700)
+	app := func(c, s *gmtls.Conn) string {
+		done := make(chan string, 1)
+		go func() {
+			got := make([]byte, len(pc))
+			if _, err := io.ReadFull(s, got); err != nil {
+				done <- "srv-read"
+				return
+			}
+			for p := ps; len(p) > 0; {
+				k := frag
+				if k > len(p) {
+					k = len(p)
+				}
+				if _, err := s.Write(p[:k]); err != nil {
+					done <- "srv-write"
+					return
+				}
+				p = p[k:]
+			}
+			done <- "ok"
+		}()
+		for p := pc; len(p) > 0; {
+			k := frag
+			if k > len(p) {
+				k = len(p)
+			}
+			if _, err := c.Write(p[:k]); err != nil {
+				return "cli-write"
+			}
+			p = p[k:]
+		}
+		got := make([]byte, len(ps))
+		if _, err := io.ReadFull(c, got); err != nil {
+			return "cli-read"
+		}
+		return <-done
+	}
+	res := runPair(ccfg, scfg, pairOpts{app: app, log: true})
+	if !res.c.done || !res.s.done || res.app != "ok" {
+		return "", false
+	}
+	f := strings.Fields(kl.buf.String())
+	if len(f) < 3 || f[0] != "CLIENT_RANDOM" {
+		return "", false
+	}
+	crandom, master := f[1], f[2]
+	var transcript []byte
+	var srandom []byte
+	seenCCS := map[string]bool{}
+	var c2s, s2c []string
+	for _, lr := range res.log.recs {
+		if !seenCCS[lr.dir] {
+			switch lr.rec.typ {
+			case recCCS:
+				seenCCS[lr.dir] = true
+			case recHandshake:
+				transcript = append(transcript, lr.rec.body...)
+				if lr.dir == "s2c" && srandom == nil && len(lr.rec.body) >= 38 && lr.rec.body[0] == 2 {
+					srandom = lr.rec.body[6:38]
+				}
+			}
+			continue
+		}
+		item := fmt.Sprintf("%02x:%s", lr.rec.typ, hx(lr.rec.body))
+		if lr.dir == "c2s" {
+			c2s = append(c2s, item)
+		} else {
+			s2c = append(s2c, item)
+		}
+	}
+	if srandom == nil {
+		return "", false
+	}
+	name := "cbc"
+	if suite == gmtls.GMTLS_ECC_SM4_GCM_SM3 {
+		name = "gcm"
+	}
+	return fmt.Sprintf("gmdecode %s %s %s %s %s %s %s %s %s", name, master, crandom, hx(srandom), hx(transcript),
+		strings.Join(c2s, ","), strings.Join(s2c, ","), hx(pc), hx(ps)), true
 }
